@@ -325,7 +325,7 @@ def run(ctx):
     ctx.units("roundtrip", unit_roundtrip,
               [{"n": 900 if q else 8000, "seed": ctx.seed, "shard": i} for i in range(8 if q else 16)], procs=16)
     ctx.units("rows-concurrent-threads", unit_concurrent, [{"reps": 30 if q else 300}])
-    ctx.units("table-shape-wide", unit_wide, [{"widths": [9, 10, 11, 31, 32, 33, 64, 100, 127, 128, 129, 255, 256, 257, 258, 300, 1000] + ([] if q else [4096, 65537])}])
+    ctx.units("table-shape-wide", unit_wide, [{"widths": [9, 10, 11, 31, 32, 33, 64, 100, 127, 128, 129, 255, 256, 257, 258, 300, 1000, 4095, 4096, 4097, 5000] + ([] if q else [65535, 65536, 65537])}])
     ctx.units("table-shape", unit_shape,
               [{"n": 750 if q else 6000, "seed": ctx.seed, "shard": i} for i in range(8 if q else 16)], procs=16)
     ctx.exhaustive = False
